@@ -1263,6 +1263,11 @@ func SprintfSummary(r *Run, cc *ssa.CallCommon, args []Val) (Val, error) {
 	return VOpq{"Sprintf(" + strings.Join(parts, "|") + ")"}, nil
 }
 
+// JoinSummary models path.Join as an opaque value listing its elements.
+func JoinSummary(r *Run, cc *ssa.CallCommon, args []Val) (Val, error) {
+	return VOpq{"Join(" + strings.Join(r.VarargElems(args[0]), ",") + ")"}, nil
+}
+
 type calleePanic struct {
 	fn   string
 	vals []Val
